@@ -31,7 +31,14 @@ def standin(name, script, args, what, bound):
     if "error" in r:
         rec.update(status="error", detail=r["error"])
     elif r.get("found"):
-        rec.update(status="violation", replay=r.get("replay"), failure=r.get("failure"), evaluations=r.get("cases", 0))
+        rp = r.get("replay")
+        if not rp:
+            d = os.path.join(VERIF, "replays", "standin")
+            os.makedirs(d, exist_ok=True)
+            rp = os.path.join(d, name.replace("/", "_") + ".txt")
+            with open(rp, "w") as fh:
+                fh.write("bounded stand-in %s failed\ncommand: %s %s\n%s\n" % (name, script, " ".join(map(str, args)), json.dumps(r, indent=1)))
+        rec.update(status="violation", replay=rp, failure=r.get("failure"), evaluations=r.get("cases", 0))
     else:
         rec.update(status="ok", evaluations=r.get("cases", 0), distinct=r.get("distinct", r.get("cases", 0)))
     return rec
